@@ -205,9 +205,9 @@ func symBinop(fr *frame, op token.Token, t types.Type, x, y value) (value, bool)
 		case token.ADD:
 			return mkConcat(a, b), true
 		case token.EQL:
-			return mkEq(a, b), true
+			return fr.i.m.strEq(a, b), true // mkEq, component-wise for declared structured URLs (intr_url.go)
 		case token.NEQ:
-			return mkNot(mkEq(a, b)), true
+			return mkNot(fr.i.m.strEq(a, b)), true
 		case token.LSS:
 			return mkStrLt(a, b), true
 		case token.GTR:
@@ -271,6 +271,9 @@ func symUnop(fr *frame, instr *ssa.UnOp, x *Term) value {
 func symEquals(fr *frame, t types.Type, x, y value) value {
 	switch x := x.(type) {
 	case *Term:
+		if x.Sort == SStr && fr != nil {
+			return simplifyBoolV(fr.i.m.strEq(x, toTerm(y)))
+		}
 		return simplifyBoolV(mkEq(x, toTerm(y)))
 	case timeVal:
 		yt := y.(timeVal)
@@ -328,8 +331,11 @@ func symEquals(fr *frame, t types.Type, x, y value) value {
 	case rtype:
 		return x.eq(t, y)
 	}
-	if _, ok := y.(*Term); ok {
-		return simplifyBoolV(mkEq(toTerm(x), y.(*Term)))
+	if yt, ok := y.(*Term); ok {
+		if yt.Sort == SStr && fr != nil {
+			return simplifyBoolV(fr.i.m.strEq(toTerm(x), yt))
+		}
+		return simplifyBoolV(mkEq(toTerm(x), yt))
 	}
 	return equals(t, x, y)
 }
